@@ -274,6 +274,55 @@ def r11_8(ctx, rep, only=None):
                 else:
                     rep.ok("R11.8", "Config::%s: field %s" % (b["key"].split("::")[-1], fn), "<= %s" % (", ".join(src) or "default"), where=where, nontrivial=False)
     rep.floor("R11.8", "Config constructors", n_ctor, 1)
+    # (d) siblings agree on what "not given" means: a field for which a public constructor has no parameter gets the value Default gives it
+    #     (every getter resolves `None` to the documented default; a constructor that pre-sets `Some(x)` silently changes a default for the
+    #     users of that constructor only)
+    def _norm_default(e):
+        if isinstance(e, tuple) and e and e[0] == "call" and re.search(r"Option<T> as std::default::Default>::default$", str(e[1])):
+            return ("agg", "std::option::Option", "None", ())
+        if isinstance(e, tuple) and e and e[0] == "field" and isinstance(e[1], tuple) and e[1] and e[1][0] == "call" \
+                and re.search(r"config::Config as std::default::Default>::default$", str(e[1][1])):
+            return dflt.get(e[2], e)
+        return e
+    dflt = {}
+    for b in ctx.facts.doc["bodies"]:
+        if b["key"].endswith("config::Config as std::default::Default>::default"):
+            gk = ctx.graph(b["key"])
+            for blk in b["blocks"]:
+                for st in blk["stmts"]:
+                    if st["k"] == "assign" and st["rv"]["k"] == "agg" and st["rv"].get("adt") == "config::Config":
+                        for fn, fo in zip(st["rv"]["fnames"], st["rv"]["fields"]):
+                            dflt[fn] = _norm_default(strip_ids(gk.prov_operand(gk.insts[0], fo)))
+    n_d = 0
+    if rep.expect("R11.8", "Default for Config", bool(dflt), "no `impl Default for Config` body with a Config aggregate found"):
+        for b in ctx.facts.doc["bodies"]:
+            if b.get("impl_self") != "config::Config" or not b.get("pub"):
+                continue
+            gk = None
+            for bi, blk in enumerate(b["blocks"]):
+                if blk.get("cleanup"):
+                    continue
+                for si, st in enumerate(blk["stmts"]):
+                    if not (st["k"] == "assign" and st["rv"]["k"] == "agg" and st["rv"].get("adt") == "config::Config"):
+                        continue
+                    gk = gk or ctx.graph(b["key"])
+                    for fn, fo in zip(st["rv"]["fnames"], st["rv"]["fields"]):
+                        if only and fn not in only:
+                            continue
+                        e = strip_ids(gk.prov_operand(gk.insts[0], fo))
+                        if any(isinstance(x, tuple) and len(x) == 2 and x[0] == "arg" for x in _subterms(e)):
+                            continue            # set from a parameter: (b)
+                        n_d += 1
+                        where = "%s:%s" % (b["file"], st.get("line", b["line"]))
+                        if _norm_default(e) != dflt.get(fn):
+                            rep.violation("R11.8", "Config::%s|field:%s|constructor-default-differs-from-Default" % (b["key"].split("::")[-1], fn),
+                                          "Config::%s" % b["key"].split("::")[-1],
+                                          "the constructor has no parameter for `%s` and sets it to %s, while Default gives %s: users of this "
+                                          "constructor silently run with another default (e.g. tail truncation switched off: a torn tail after a crash "
+                                          "then refuses to open)" % (fn, expr_s(e)[:60], expr_s(dflt.get(fn))[:60]), where=where)
+                        else:
+                            rep.ok("R11.8", "Config::%s: field %s without parameter" % (b["key"].split("::")[-1], fn), "= Default's value", where=where, nontrivial=False)
+    rep.floor("R11.8", "constructor fields without a parameter", n_d, 1)
     # (c) a configuration derived from another one (normalising the directory, filling defaults, ...) carries EVERY setting over: in any
     #     function that receives a Config and builds a Config (directly or through a constructor it calls), each field of the new value
     #     derives from the same field of the one received
